@@ -136,6 +136,70 @@ def analyse_variant(prog: Program, pid: str, overrides: dict):
     return col, errs
 
 
+
+# --------------------------------------------------------------------------------------
+# whole-tree benign twins: every function of the package rewritten in a behaviour-preserving way
+# --------------------------------------------------------------------------------------
+
+def rename_locals(tree: ast.Module) -> None:
+    """Alpha-rename every local / loop / comprehension variable of every function (parameters keep their names)."""
+    counter = [0]
+    for fn in [n for n in ast.walk(tree) if isinstance(n, ast.FunctionDef)]:
+        params = set()
+        for n in ast.walk(fn):
+            if isinstance(n, ast.arguments):
+                for a in n.posonlyargs + n.args + n.kwonlyargs:
+                    params.add(a.arg)
+                if n.vararg:
+                    params.add(n.vararg.arg)
+                if n.kwarg:
+                    params.add(n.kwarg.arg)
+        bound, glob = set(), set()
+        for n in ast.walk(fn):
+            if isinstance(n, ast.Name) and isinstance(n.ctx, ast.Store):
+                bound.add(n.id)
+            if isinstance(n, (ast.Global, ast.Nonlocal)):
+                glob.update(n.names)
+            if isinstance(n, ast.ExceptHandler) and n.name:
+                params.add(n.name)
+            if isinstance(n, (ast.Import, ast.ImportFrom)):
+                for al in n.names:
+                    params.add((al.asname or al.name).split(".")[0])
+            if isinstance(n, (ast.FunctionDef, ast.ClassDef)) and n is not fn:
+                params.add(n.name)
+        mapping = {}
+        for name in sorted(bound - params - glob):
+            counter[0] += 1
+            mapping[name] = f"v{counter[0]}_{name[:1]}"
+        for n in ast.walk(fn):
+            if isinstance(n, ast.Name) and n.id in mapping:
+                n.id = mapping[n.id]
+
+
+def add_asserts(tree: ast.Module) -> None:
+    """Insert an assert and a logging call at the top of every function body."""
+    for fn in [n for n in ast.walk(tree) if isinstance(n, ast.FunctionDef)]:
+        body = fn.body
+        i = 1 if body and isinstance(body[0], ast.Expr) and isinstance(body[0].value, ast.Constant) and isinstance(body[0].value.value, str) else 0
+        extra = ast.parse("assert True, 'twin'\n__import__('logging').getLogger('twin').debug('enter')").body
+        fn.body = body[:i] + extra + (body[i:] or [ast.Pass()])
+    ast.fix_missing_locations(tree)
+
+
+TREE_TWINS = {"alpha-renaming of all locals in every function": rename_locals,
+              "assert + logging call inserted at the top of every function": add_asserts}
+
+
+def tree_twin_overrides(prog: Program, transform) -> dict:
+    ov = {}
+    for m in prog.modules.values():
+        t = copy.deepcopy(m.tree)
+        transform(t)
+        # round trip through source so that positions are consistent
+        ov[m.rel()] = ast.parse(ast.unparse(t))
+    return ov
+
+
 def self_validate(prog: Program, pid: str, base: Collector, errors: list[str]) -> dict:
     from .variants import VARIANTS
     mine = [v for v in VARIANTS if pid in v.props]
@@ -170,6 +234,18 @@ def self_validate(prog: Program, pid: str, base: Collector, errors: list[str]) -
             else:
                 failures.append(f"benign twin '{v.name}' raised {[f.rule + ':' + f.message[:80] for f in new]} undecided={[u['message'][:80] for u in new_und]} errors={errs[:1]}")
                 results.append({"variant": v.name, "kind": "twin", "status": "ALARM"})
+    ntree = 0
+    for tname, tf in TREE_TWINS.items():
+        col, errs = analyse_variant(prog, pid, tree_twin_overrides(prog, tf))
+        new = [f for f in col.findings if f.key not in base_keys]
+        new_und = [u for u in col.undecided if (u["rule"], u["function"], u["message"]) not in base_und]
+        base_errs = set(errors)
+        if not new and not new_und and not [e for e in errs if e not in base_errs]:
+            ntree += 1
+            results.append({"variant": "whole tree: " + tname, "kind": "twin", "status": "silent"})
+        else:
+            failures.append(f"whole-tree twin '{tname}' raised {[f.rule + ':' + f.message[:80] for f in new]} undecided={[u['message'][:60] for u in new_und]} errors={errs[:1]}")
+            results.append({"variant": "whole tree: " + tname, "kind": "twin", "status": "ALARM"})
     import os
     if os.environ.get("ICGSA_STRICT_SKIP") == "1":
         for r in results:
@@ -178,14 +254,16 @@ def self_validate(prog: Program, pid: str, base: Collector, errors: list[str]) -
     for f in failures:
         errors.append("self-validation: " + f)
     print(f"[{pid}] self-validation: {detected}/{sum(1 for v in mine if v.kind == 'break')} breaking variants detected, "
-          f"{silent}/{sum(1 for v in mine if v.kind == 'twin')} benign twins silent, {skipped} skipped (anchor absent)")
+          f"{silent}/{sum(1 for v in mine if v.kind == 'twin')} benign twins silent, {ntree}/{len(TREE_TWINS)} whole-tree twins silent, "
+          f"{skipped} skipped (anchor absent)")
     nb = sum(1 for v in mine if v.kind == "break")
     nt = sum(1 for v in mine if v.kind == "twin")
     return {
         "self_validation": {
             "breaking_variants": nb, "detected": detected, "benign_twins": nt, "silent": silent, "skipped": skipped,
+            "whole_tree_twins": len(TREE_TWINS), "whole_tree_twins_silent": ntree,
             "results": results,
         },
-        "obligations_variants": nb + nt,
-        "discharged_variants": detected + silent,
+        "obligations_variants": nb + nt + len(TREE_TWINS),
+        "discharged_variants": detected + silent + ntree,
     }
